@@ -79,6 +79,15 @@ Definition spec_step (dflt : option V) (m : smap) (o : op K V) : smap * eres (re
   | OUpdate kvs => (sm_update m kvs, EOk RNone)
   | OClear => ([], EOk RNone)
   | OLower => (sm_lower m, EOk RNone)
+  | OMutate k f =>
+    (* the object a lookup of k yields is mutated in place: a stored value changes (same position, same
+       spelling); the default yielded for an absent key is a fresh one, so nothing changes *)
+    match sm_find (lower k) m, dflt with
+    | Some (sp, v), _ =>
+      match f v with Some v' => (sm_put (lower k) sp v' m, EOk RNone) | None => (m, EExn TypeError) end
+    | None, Some d0 => (m, match f d0 with Some _ => EOk RNone | None => EExn TypeError end)
+    | None, None => (m, EExn KeyError)
+    end
   end.
 
 (* what the public protocol shows of a reference map *)
